@@ -43,6 +43,22 @@ def make_tensor(shape, kind: str, seed: int, scale: float, dtype: torch.dtype) -
         t = torch.randn(shape, generator=g, dtype=torch.float64)
         m = torch.rand(shape, generator=g, dtype=torch.float64) < 0.3
         t = t * m
+    elif kind == "rowsparse":
+        # only two or three slices along one dimension are non-zero (embedding rows, masked / grouped layers): the mode's Gram matrix has a small
+        # dense non-diagonal block whose position depends on the active slices (neighbouring or not)
+        t = torch.zeros(shape, dtype=torch.float64)
+        if len(shape) >= 1 and n:
+            dim = int(seed) % len(shape)
+            d = shape[dim]
+            k = min(d, 2 + (int(seed) // 3) % 2)
+            idx = torch.randperm(d, generator=g)[:k]
+            sl = [slice(None)] * len(shape)
+            vals = torch.randn(shape, generator=g, dtype=torch.float64)
+            for i in idx.tolist():
+                sl[dim] = i
+                t[tuple(sl)] = vals[tuple(sl)]
+        elif n:
+            t = torch.randn(shape, generator=g, dtype=torch.float64)
     elif kind == "ints":
         t = torch.randint(-3, 4, shape, generator=g).to(torch.float64)
     else:
@@ -50,7 +66,7 @@ def make_tensor(shape, kind: str, seed: int, scale: float, dtype: torch.dtype) -
     return (t * scale).to(dtype)
 
 
-GRAD_KINDS = ["gauss", "gauss", "gauss", "onehot", "rank1", "sparse", "const", "ints", "zeros"]
+GRAD_KINDS = ["gauss", "gauss", "gauss", "onehot", "rank1", "sparse", "rowsparse", "rowsparse", "const", "ints", "zeros"]
 
 
 def f32(x: float) -> float:
